@@ -382,6 +382,25 @@ func VerifHeaderParse(d []byte, p int, dl int, l int) {}
 //@   ensures [found] err == nil ==> 0 <= p && p < len(options) && options[p].ID == id && (p == 0 || options[p - 1].ID < id) && v == beU32(options[p].Value, min(len(options[p].Value), 4))
 //@   ensures [not-found] err != nil ==> err == ErrOptionNotFound && v == 0 && (forall i int :: {options[i].ID} 0 <= i && i < len(options) ==> options[i].ID != id)
 //
+// GetStrings: as GetBytess, the values converted to strings (their lengths are specified, their text is
+// the conversion of the option value).
+//
+//@ func (Options) GetStrings(id OptionID, r []string) (n int, err error)
+//@   requires sortedOpts(options)
+//@   modifies r[0 : len(r)]
+//@   witness f = firstIdx
+//@   witness l = lastIdx
+//@   ensures [not-found] err == ErrOptionNotFound ==> n == 0 && (forall i int :: {options[i].ID} 0 <= i && i < len(options) ==> options[i].ID != id)
+//@   ensures [too-small] err == ErrTooSmall ==> n == l - f && len(r) < n && 0 <= f && f < l && l <= len(options)
+//@   ensures [err-kind] err != nil ==> err == ErrOptionNotFound || err == ErrTooSmall
+//@   ensures [count] err == nil ==> n == l - f && 0 <= f && f < l && l <= len(options) && n <= len(r) && (forall i int :: {options[i].ID} 0 <= i && i < len(options) ==> ((f <= i && i < l) <==> options[i].ID == id))
+//@   ensures [lengths] err == nil ==> (forall k int :: {len(r[k])} 0 <= k && k < n ==> len(r[k]) == len(options[f + k].Value))
+//@   loop 0:
+//@     modifies r[0 : len(r)]
+//@     invariant firstIdx <= i && i <= lastIdx && idx == i - firstIdx && i == firstIdx + #iter
+//@     invariant forall k int :: {len(r[k])} 0 <= k && k < idx ==> len(r[k]) == len(options[firstIdx + k].Value)
+//@     decreases lastIdx - i
+//
 //@ func (Options) GetBytess(id OptionID, r [][]byte) (n int, err error)
 //@   requires sortedOpts(options)
 //@   modifies r[0 : len(r)]
